@@ -517,6 +517,39 @@ Definition utf8_ok (s : str) : bool := match run 0 s with Some O => true | _ => 
 (* an absolute IRI as far as the structure goes: it has a scheme *)
 Definition abs_iri (s : str) : bool := match positions_of s with Some _ => true | None => false end.
 
+(* ---------- additions (round 4): IRIs that are EQUIVALENT to the base under some normalisation
+   (scheme / host letter case, percent-encoding case, default port, ...) but not identical to it.
+   relativize compares BYTES: whenever it returns a reference, the IRI starts with the scheme and
+   the authority of the base byte for byte (proved: relativize_some_shares_root). ---------- *)
+(* equivalent up to ASCII letter case (Prelude: str_eqb_ci = str::eq_ignore_ascii_case) yet not identical *)
+Definition case_variant (a b : str) : bool := str_eqb_ci a b && negb (str_eqb a b).
+
+(* the IRI starts with "scheme:" and "//authority" of the base, byte for byte *)
+Definition shares_root (b iri : str) : bool :=
+  match positions_of b with
+  | Some p => starts_with (firstn (authority_end p) b) iri
+  | None => false
+  end.
+Definition shares_root_ok (b iri : str) (code : N) : bool :=
+  if N.eqb code 1%N then shares_root b iri else true.
+
+(* Iri::query / Iri::fragment (oxiri) *)
+Definition ox_query (s : str) (p : positions) : option str :=
+  if path_end p <? query_end p then Some (slice (path_end p + 1) (query_end p) s) else None.
+Definition ox_fragment (s : str) (p : positions) : option str :=
+  if query_end p <? length s then Some (skipn (query_end p + 1) s) else None.
+(* the five components BaseIri reports for the base (Relativizer::new reads scheme, authority, path) *)
+Definition components_ok (b sch : str) (au : option str) (path : str) (q f : option str) : bool :=
+  match positions_of b with
+  | Some p => str_eqb (ox_scheme b p) sch && opt_eqb str_eqb (ox_authority b p) au
+              && str_eqb (ox_path b p) path && opt_eqb str_eqb (ox_query b p) q
+              && opt_eqb str_eqb (ox_fragment b p) f
+  | None => false
+  end.
+(* RFC 3986 section 5.3 applied to the components oxiri reports *)
+Definition ox_recompose (s : str) (p : positions) : str :=
+  recompose (mkparts (Some (ox_scheme s p)) (ox_authority s p) (ox_path s p) (ox_query s p) (ox_fragment s p)).
+
 (* ---------- harness-facing checkers ---------- *)
 Definition res_code (r : res) : N * str :=
   match r with Panic => (2%N, []) | Ret None => (0%N, []) | Ret (Some x) => (1%N, x) end.
